@@ -129,6 +129,12 @@ static Case cases[] = {
              return printf("round trip lost the string: %s\n", t.First()), 1;
          return 0;
      }},
+    {"tmpl_loop_under_two_ifs", [] { return tp_is("<if case=\"1\"><if case=\"1\"><loop value=\"v\">{var:v}</loop></if></if>", "[1,2,3]", "123"); }},
+    {"tmpl_loop_end_inside_if", [] { return tp_is("<loop value=\"a\"><if case=\"1\"></loop>x", "[1]", nullptr); }},
+    {"tmpl_stale_loop_key", [] {
+         return tp_is("<loop value=\"v\" sort=\"ascend\">{var:v}</loop><loop set=\"arr\" value=\"v\">{var:v}</loop>",
+                      "{\"a\":1,\"b\":2,\"arr\":[[1]]}", nullptr);
+     }},
     // ---- C04 / C01 integer remainder
     {"math_remainder_by_zero", [] { return tp_is("{math: 5 % 0}", "[1]", "{math: 5 % 0}"); }},
     {"math_remainder_by_fraction", [] { return tp_is("{math: 5 % 0.5}", "[1]", "{math: 5 % 0.5}"); }},
